@@ -217,3 +217,44 @@ impl TlsAcceptor {
         self.inner.into_stream(tls_config).await
     }
 }
+
+/// Verification door
+#[cfg(feature = "verif")]
+impl TlsListener {
+    /// 0 = Found(random), 1 = NeedMoreData, 2 = NotFound
+    pub(crate) fn verif_extract_client_random(data: &[u8]) -> (u8, Option<Vec<u8>>) {
+        match Self::extract_client_random(data) {
+            ClientRandomExtraction::Found(x) => (0, Some(x)),
+            ClientRandomExtraction::NeedMoreData => (1, None),
+            ClientRandomExtraction::NotFound => (2, None),
+        }
+    }
+
+    /// The real read loop; returns the random, the prebuffer length and everything that can
+    /// subsequently be read from the wrapped stream until EOF
+    pub(crate) async fn verif_read_and_replay(
+        stream: TcpStream,
+        read_sizes: Vec<usize>,
+    ) -> io::Result<(Option<Vec<u8>>, usize, Vec<u8>)> {
+        let (mut wrapped, random) = Self::read_client_random_and_wrap_stream(stream).await?;
+        let prebuffer_len = wrapped.prebuffer.len();
+        let mut all = vec![];
+        let mut i = 0;
+        loop {
+            let cap = if read_sizes.is_empty() {
+                4096
+            } else {
+                read_sizes[i % read_sizes.len()].max(1)
+            };
+            i += 1;
+            let mut tmp = vec![0u8; cap];
+            let n = wrapped.read(&mut tmp).await?;
+            if n == 0 {
+                break;
+            }
+            all.extend_from_slice(&tmp[..n]);
+        }
+        Ok((random, prebuffer_len, all))
+    }
+}
+
